@@ -50,6 +50,15 @@ def gen(rs: int, tier: str, index: int) -> dict:
             m.pop("ack", None)
             m.pop("save", None)
     from sim.rng import stream
+    if index % 9 == 7 and s["config"]["workers"] == 1:
+        # the programmatic entry point taskiq.api.run_receiver_task with one or two broker.listen() failures: it builds a new Receiver
+        # and subscribes again; sync and async messages taken afterwards still run exactly once
+        ra = stream(rs, "c01api")
+        s["config"]["entry"] = "api"
+        n = max(1, len(s["messages"]))
+        s["config"]["listen_fail_after"] = sorted(ra.randint(0, n) for _ in range(ra.choice([1, 1, 2])))
+        s["config"]["N"] = None
+        s["ops"] = [o for o in s["ops"] if o.get("op") != "stop"]          # this entry point's only stop request is cancellation: not graceful
     rl = stream(rs, "c01labels")
     if rl.random() < 0.2:
         # typed labels on the messages, one of which a client-side pre_send middleware consumes (pops) after the kicker typed it,
@@ -112,6 +121,11 @@ def oracle(script: dict, run: Any) -> List[Violation]:
         if n_enter == expect:
             continue
         if expect == 1 and n_enter == 0:
+            if script["config"].get("entry") == "api" and not h.of(d, "cb_enter") and \
+                    any(e[0] > t[0] and e[5].get("w") == wn for e in h.kind("listen_fail")):
+                # handed over by a subscription that then failed: the message went down with that listen() call, unacknowledged (a
+                # broker redelivers it) - the same as a crash as far as this property goes
+                continue
             sub = "lost"
             if N and take_ord[node] == N + 1 and not h.of(d, "cb_enter"):
                 sub = "lost@max_tasks"
